@@ -221,6 +221,15 @@ func (x *Explorer) bfs() {
 			evs := w.enabled()
 			if len(evs) == 0 {
 				x.res.Terminal++
+				if x.sc.Oracle != "" {
+					// terminal state of a liveness-flavoured scenario: everything deliverable has been delivered
+					w.endCheck()
+					if len(w.viol) > 0 {
+						x.check(w, append(append([]Event{}, evp...), Event{K: "endcheck"}))
+					} else if w.done() {
+						x.res.Done++
+					}
+				}
 				continue
 			}
 			for i, e := range evs {
